@@ -24,7 +24,7 @@ META = {
             '(write / writeProject / writeDependency) and the XML tokenizer/encoder (forkedxml) are not modelled.',
     'note': 'Trusted: Lean kernel (axioms propext/Quot.sound/Classical.choice at most); gjson/sjson address exactly the parsed literal key and change only '
             'that value (bytes compared on every case); encoding/json, forkedxml and deps.dev maven decoding/interpolation (exercised, not modelled); '
-            'harness/cmd/c13gen and lean/Drivers/C13.lean. Not modelled: npm workspaces, local parent POMs, plugins, dependencyManagement imports.',
+            'harness/cmd/c13gen and lean/Drivers/C13.lean. Not modelled: npm workspaces, local parent POMs (specification verdict only), dependencyManagement imports.',
 }
 NPM = 'Scalibr.Npm.'
 POM = 'Scalibr.Pom.'
@@ -65,14 +65,15 @@ def run(ctx):
                    'harness/cmd/c13gen + lean/Drivers/C13.lean line protocol', 'Lean compiler for the driver executable']
     ctx.assumptions = ['package.json sections have unique keys',
                        'updates carry plain version strings (no ":", "/", "@"); an aliased update names its package and a non-empty old version',
-                       'pom model: no local parents, plugins, imports, active profiles; property values are literals; one update per dependency key']
+                       'pom model: no local parents, imports, active profiles; plugin dependencies only under pluginManagement; property values are literals; one update per dependency key']
     ctx.rule = ('npm case = three sections (0-4 entries, 26 names incl. dotted/scoped/wildcard/escaped/non-ASCII, plain/alias/non-registry values, repeated keys across sections; every fourth manifest requires one package through its own name and 1-2 npm: aliases, at identical or different ranges, all in "dependencies" or spread over the three sections (Read keys a requirement by package and alias), each entry updated) in a '
                 'random layout (indent, key order, noise sections) x a subset of the requirements Read reports as updates (some with a wrong old version or an ill-formed new one); '
                 'thorough adds every section combination x equal/different versions x 8 names, plain and aliased. '
                 'pp case = (s1, s2) from literal/placeholder pools; thorough adds 155 templates x every s2 of length <=5 over {1 . - x}. '
                 'ws case = one dependency / parent / properties element (comments, CDATA, entities, attributes, white space, PIs inside or beside the addressed child) through the real writeString with the element\'s own version, a new one, or property values. '
                 'pch case = multi-module layout with 1-3 local parents, intermediate poms that inherit groupId / version, default and explicit relativePath, literal-version entries at every level (every third layout with ${project.groupId} / ${pom.groupId} group ids, the child having its own group id or the chain\'s), updates addressed to each, written to the same path or to another directory (parents must appear next to the output); '
-                'pom case = abstract pom (1-4 dependencies, every third with a second declaration of one groupId:artifactId under another key (test-jar / classifier) and another version, dependencyManagement, 0-2 profiles, properties used as whole/prefix/suffix/two placeholders, ${project.version}; every sixth with group / artifact ids written through ${project.groupId} / ${pom.groupId} / ${project.version}, every twentieth through a property of the pom) rendered with '
+                '(every third layout: versions through a property of the declaring pom, entries in profiles of the manifest; the new version of every update must be the text of some element of the written files); '
+                'pom case = abstract pom (every fifth with 1-2 pluginManagement plugins — half of them without <groupId> — holding 1-2 dependencies of their own; 1-4 dependencies, every third with a second declaration of one groupId:artifactId under another key (test-jar / classifier) and another version, dependencyManagement, 0-2 profiles, properties used as whole/prefix/suffix/two placeholders, ${project.version}; every sixth with group / artifact ids written through ${project.groupId} / ${pom.groupId} / ${project.version}, every twentieth through a property of the pom) rendered with '
                 'comments / one-line forms / namespaces, x update subsets drawn from the real Read (all subsets when <=4 in thorough) + the no-update case (plain, comment or CDATA in <version>); '
                 'every fourth pom without managed entries still has the element: <dependencyManagement/>, <dependencyManagement></dependencyManagement>, white space or a comment inside, or an empty / self-closing <dependencies> inside, and is then also written with updates for keys it does not hold (they must be added there); '
                 'a self-closing <dependencyManagement/> comes back as <dependencyManagement></dependencyManagement> (same tokens; the writer re-wraps the inner XML) and bytes are compared with that spelling. '
@@ -82,7 +83,7 @@ def run(ctx):
     if ctx.tier == 'thorough':
         proofs_ok = ctx.leanchecker('Scalibr.Properties.C13') and proofs_ok
     n = {'quick': 2000, 'thorough': 12000}[ctx.tier]
-    KEYS = ['r', 'dev', 'opt', 'prod', 'reqs', 'deps', 'props', 'out', 'rb']
+    KEYS = ['r', 'dev', 'opt', 'prod', 'reqs', 'deps', 'props', 'out', 'rb', 'view']
 
     def agree(fi, fm):
         return all(fi.get(k) == fm.get(k) for k in KEYS)
@@ -120,6 +121,9 @@ def run(ctx):
                     return 'pom.xml, local parent chain: re-read requirements of the child (parents merged) differ from substitute(original, updates)'
                 if fi.get('same') != '1':
                     return 'pom.xml, local parent chain: a pom of the chain that no update addresses is not byte-identical'
+                if '0' in fi.get('applied', '-'):
+                    return ('pom.xml, local parent chain: Write returned nil, but the new version of an update is in none of the written files '
+                            '(success without applying the update)')
         elif op == 'ws':
             t = case.split(' ')
             if fi.get('out') in ('err', 'unparseable'):
